@@ -8,6 +8,7 @@ import (
 	"os/exec"
 	"path/filepath"
 	"runtime"
+	"runtime/pprof"
 	"sort"
 	"strconv"
 	"strings"
@@ -296,6 +297,12 @@ func workerMain(t *testing.T, prop string) {
 		armRun(nil, tier, nil, "")
 		done++
 		next = k + W
+		if os.Getenv("VERIF_DIAG") != "" {
+			if f, err := os.OpenFile(os.Getenv("VERIF_DIAG"), os.O_APPEND|os.O_CREATE|os.O_WRONLY, 0644); err == nil {
+				fmt.Fprintf(f, "DIAG run %d seed=%d goroutines=%d\n", done, seed, runtime.NumGoroutine())
+				f.Close()
+			}
+		}
 		if res.Harness != "" {
 			emit(workerLine{Kind: "harness", Msg: fmt.Sprintf("seed=%d: %s", seed, res.Harness)})
 			if stopPath != "" {
@@ -336,6 +343,12 @@ func workerMain(t *testing.T, prop string) {
 			res.Sample = nil // keep the result file small
 		}
 		emit(workerLine{Kind: "run", Res: res})
+	}
+	if d := os.Getenv("VERIF_DIAG"); d != "" {
+		if f, err := os.OpenFile(d, os.O_APPEND|os.O_CREATE|os.O_WRONLY, 0644); err == nil {
+			pprof.Lookup("goroutine").WriteTo(f, 1)
+			f.Close()
+		}
 	}
 	emit(workerLine{Kind: "done", Msg: strconv.Itoa(next)})
 }
